@@ -98,6 +98,75 @@ pub fn guarded<T>(f: impl FnOnce() -> T) -> Result<T, Panicked> {
 }
 
 // ---------------------------------------------------------------------------------------------
+// a second calling thread: every interpreter thread owns one long-lived helper thread; `on_helper`
+// runs a closure there and waits for it (strictly one call at a time)
+// ---------------------------------------------------------------------------------------------
+
+struct JobPtr(*mut (dyn FnMut() + 'static));
+unsafe impl Send for JobPtr {}
+
+struct Helper {
+    tx: std::sync::mpsc::Sender<JobPtr>,
+    done: std::sync::mpsc::Receiver<()>,
+}
+
+thread_local! {
+    static HELPER: RefCell<Option<Helper>> = const { RefCell::new(None) };
+}
+
+/// Run `f` on the calling thread's helper thread and wait for the result. The hand-over through the
+/// channels orders everything before the call before it and everything in it before the return, so
+/// the code under test sees two threads of one caller taking turns. A panic in `f` is re-raised here.
+pub fn on_helper<R>(f: impl FnOnce() -> R) -> R {
+    let mut slot: Option<(std::thread::Result<R>, Option<String>)> = None;
+    let mut fopt = Some(f);
+    {
+        let mut job = || {
+            let f = fopt.take().unwrap();
+            // panics are carried back to the caller (its own `guarded` decides what they mean)
+            GUARD_DEPTH.with(|d| d.set(d.get() + 1));
+            let r = catch_unwind(AssertUnwindSafe(f));
+            GUARD_DEPTH.with(|d| d.set(d.get().saturating_sub(1)));
+            let msg = if r.is_err() { LAST_PANIC.with(|p| p.borrow_mut().take()) } else { None };
+            slot = Some((r, msg));
+        };
+        let r: &mut dyn FnMut() = &mut job;
+        // the borrow is erased for the channel; this function does not return before the job ran
+        let raw: *mut (dyn FnMut() + 'static) = unsafe { std::mem::transmute(r as *mut dyn FnMut()) };
+        HELPER.with(|h| {
+            let mut h = h.borrow_mut();
+            if h.is_none() {
+                let (tx, rx) = std::sync::mpsc::channel::<JobPtr>();
+                let (dtx, drx) = std::sync::mpsc::channel::<()>();
+                std::thread::Builder::new()
+                    .name("verif-helper".into())
+                    .spawn(move || {
+                        while let Ok(j) = rx.recv() {
+                            unsafe { (*j.0)() };
+                            if dtx.send(()).is_err() {
+                                break;
+                            }
+                        }
+                    })
+                    .expect("helper thread");
+                *h = Some(Helper { tx, done: drx });
+            }
+            let hh = h.as_ref().unwrap();
+            hh.tx.send(JobPtr(raw)).expect("helper thread gone");
+            hh.done.recv().expect("helper thread gone");
+        });
+    }
+    match slot.expect("helper did not run the job") {
+        (Ok(r), _) => r,
+        (Err(p), msg) => {
+            // the message was recorded on the helper thread; hand it to this thread's `guarded`
+            LAST_PANIC.with(|l| *l.borrow_mut() = msg);
+            std::panic::resume_unwind(p)
+        }
+    }
+}
+
+// ---------------------------------------------------------------------------------------------
 // known findings
 // ---------------------------------------------------------------------------------------------
 
